@@ -22,6 +22,9 @@ def plan(tier, seed):
         specs.append({"name": f"searched-from-threads-{_g.SHORT[sch_]}", "kind": "threads", "schemes": [sch_],
                       "primitive_monitors": False, "rounds": 1 if tier == "quick" else 12, "seconds_per_scheme": 9,
                       "budget_s": 300})
+    for j in range(3):
+        specs.append({"name": f"dropped-index-generations-{j}", "kind": "generations", "schemes": _g.SCHEMES[j::3],
+                      "rounds": 1 if tier == "quick" else 8, "generations": 60, "budget_s": 120})
     for j in range(2 if tier == "quick" else 4):
         specs.append({"name": f"long-keywords-{j}", "kind": "long_keywords", "index": j * 4,
                       "budget_s": 12 if tier == "quick" else 200})
@@ -119,6 +122,9 @@ def run_shard(spec, acc, ctx):
     if spec.get("kind") == "feedback":
         eng.run_feedback(spec, acc, ctx, "absent")
         return
+    if spec.get("kind") == "generations":
+        eng.run_generations(spec, acc, ctx, "absent")
+        return
     if spec.get("kind") == "long_keywords":
         eng.run_long_keywords(spec, acc, ctx, "absent")
         return
@@ -129,6 +135,9 @@ def run_shard(spec, acc, ctx):
 
 
 def replay(case, acc, ctx):
+    if case.get("generations"):
+        acc.count("replayed")
+        return eng.run_generations({"schemes": [case["scheme"]], "rounds": 3, "generations": 80}, acc, ctx, "absent")
     if case.get("threads"):
         acc.count("replayed")
         return eng.run_threads({"schemes": [case["scheme"]], "rounds": 3, "seconds_per_scheme": 9}, acc, ctx, "absent")
